@@ -15,5 +15,11 @@ CONSTANTS
   Mode = "cli"
   MaxLines = 2
   Variant = "design"
+  NoCols = {FALSE}
+  AddChrs = {FALSE}
+  DupFlags = {FALSE}
+  LowQFlags = {FALSE}
+  PosMax = 1
+  MapqReading = "ignored"
 CONSTRAINT Emit
 CHECK_DEADLOCK FALSE
